@@ -260,4 +260,14 @@ def runIdx [DecidableEq κ] (f : β → α → β) (init : β) :
     let r := step f init st e
     r.2.map (fun o => (i, o)) ++ runIdx f init r.1 (i + 1) es
 
+/-! ### Specification vocabulary -/
+
+/-- a single sequential run of the stateful closure (a running fold) over the sub-stream of ONE
+    key: every data element is replaced by the state after folding it in -/
+def seqRun (f : β → α → β) : β → List (Elem α) → List (Elem β)
+  | _, [] => []
+  | s, .item v :: rest => .item (f s v) :: seqRun f (f s v) rest
+  | s, .ts v t :: rest => .ts (f s v) t :: seqRun f (f s v) rest
+  | s, _ :: rest => seqRun f s rest
+
 end Noir.KeyedRichMap
